@@ -63,10 +63,14 @@ CLAIMED = {
         technique="Lean 4 graded-walk theorems on the Batch emitter model + byte-for-byte correspondence + execution under a calibrated cmd.exe model",
         design="7/C05"),
     "C06": dict(
-        text="The typing discipline is an executable checker on elaborated ASTs (Model/Typed.lean), run on every AST the real parser returns. Theorems (Props/C06.lean): every typed AST "
+        text="Parser soundness (Props/C06Sem.lean): every AST the parser model returns - all file systems, import graphs and token sequences - satisfies the executable typing "
+             "predicate PT.program (Model/PTyped.lean: operand, condition, case, index, element and builtin-argument types, variable = value type, declared return types, only "
+             "language types); with the two constructs of PT.strict excluded it is typed in the emitters' sense and the Bash emitter returns a script. PT.program is evaluated on "
+             "every AST of the real parser in the run. "
+             "The typing discipline is an executable checker on elaborated ASTs (Model/Typed.lean), run on every AST the real parser returns. Theorems (Props/C06.lean): every typed AST "
              "is translated by the bash emitter model without error or panic (the converters' second line of defence never fires on typed input, so acceptance is the parser's, "
              "which does not see the target); the converse for ill-typed operators; operator tables. Parser verdicts: exhaustive typed-position table x contexts, both targets.",
-        note=TB + "that the parser accepts exactly the typed programs is sampled (table + generators), not proved; the Batch emitter's totality is not yet a theorem.",
+        note=TB + "completeness (every typed program is accepted) is sampled by the exhaustive typed-position table, not proved; nested return statements are not checked by the parser (known finding) and not part of PT.",
         technique="Lean 4 emit-totality theorem over a typing checker that is also run on every parser output + exhaustive typed-position table",
         design="7/C06"),
     "C07": dict(
